@@ -1781,3 +1781,32 @@ Proof.
   destruct (cs_step k (snd c)) as [s1| |] eqn:C; try discriminate. inversion S; subst.
   eapply cs_step_other; eauto.
 Qed.
+
+(* Cancel of a job that is not the table's entry for its number (it was displaced by an overlapping
+   Task, or is already out of the table) leaves the table as it is: the identity check *)
+Lemma cs_step_table_eq : forall c s s',
+  cs_step c s = Ok s' -> (forall h e t, c <> HDel h e t) -> (forall h, c <> CDel h) -> table s' = table s.
+Proof.
+  intros c s s' C N1 N2. unfold cs_step in C. destruct (getj s (cs_job c)) as [j|].
+  2:{ inversion C; subst. reflexivity. }
+  destruct c; try (inversion C; subst; reflexivity).
+  - exfalso. eapply N1; reflexivity.
+  - destruct (jdone j); cbn in C; inversion C; subst; reflexivity.
+  - exfalso. eapply N2; reflexivity.
+  - destruct (jdone j); cbn in C; inversion C; subst; reflexivity.
+Qed.
+
+Lemma cancel_displaced_keeps_table : forall s h j s1 s2 s3,
+  getj s h = Some j -> lookup (jid j) (table s) <> Some h ->
+  cs_step (CSt h) s = Ok s1 -> cs_step (CClose h) s1 = Ok s2 -> cs_step (CStNil h) s2 = Ok s3 ->
+  held s1 = Some (CClose h) /\ table s3 = table s.
+Proof.
+  intros s h j s1 s2 s3 G L C1 C2 C3.
+  assert (T1 : table s1 = table s) by (eapply cs_step_table_eq; eauto; discriminate).
+  assert (T2 : table s2 = table s1) by (eapply cs_step_table_eq; eauto; discriminate).
+  assert (T3 : table s3 = table s2) by (eapply cs_step_table_eq; eauto; discriminate).
+  split; [|congruence].
+  unfold cs_step in C1. cbn [cs_job] in C1. rewrite G in C1. inversion C1; subst. cbn.
+  destruct (lookup (jid j) (table s)) as [h'|]; [|reflexivity].
+  destruct (Nat.eqb h' h) eqn:E; [|reflexivity]. apply Nat.eqb_eq in E. congruence.
+Qed.
